@@ -37,6 +37,12 @@ func kitArbitraryRequest(kc *kitCfg, pathShape int) (*envoy.CheckRequest, string
 		carried = ""
 	case 1:
 		headers = map[string]string{"cookie": name + "=" + cookieVal}
+		if vn.Bound("many-cookies", 0) > 0 && vn.Choice("many-other-cookies-first", 2) == 1 {
+			// a browser that holds many cookies of the application itself (RFC 6265 obliges user
+			// agents to support at least 50 per domain; they keep more) and sends ours last
+			headers = map[string]string{"cookie": kitManyCookies + name + "=" + cookieVal}
+			vn.Cover("kit/many-cookies", true)
+		}
 	case 2:
 		headers = map[string]string{"cookie": vn.StringIn("other-cookie", 3, alphaLower+"=") + "; " + name + "=" + cookieVal}
 	default:
@@ -164,3 +170,12 @@ func verifC01Step(pathShape int) {
 		vn.Assert("C01/refreshed-tokens-stored-under-the-session", vn.And(write.id == carried, write.took, !write.failed))
 	}
 }
+
+// kitManyCookies: sixty cookies of the application, "c00=v; c01=v; ... ".
+var kitManyCookies = func() string {
+	out := ""
+	for i := 0; i < 60; i++ {
+		out += "c" + string(rune('0'+i/10)) + string(rune('0'+i%10)) + "=v; "
+	}
+	return out
+}()
